@@ -29,7 +29,7 @@ func catalogue(form string) []corruption {
 	pos := []string{"first", "middle", "last"}
 	fasta := func(file string) {
 		for _, p := range pos {
-			out = append(out, corruption{"short_row", file, p, ""}, corruption{"long_row", file, p, ""}, corruption{"bad_symbol", file, p, ""})
+			out = append(out, corruption{"short_row", file, p, ""}, corruption{"long_row", file, p, ""}, corruption{"bad_symbol", file, p, ""}, corruption{"empty_row", file, p, ""})
 		}
 		out = append(out, corruption{"empty_file", file, "", ""}, corruption{"no_leading_header", file, "", ""})
 	}
@@ -54,9 +54,12 @@ func catalogue(form string) []corruption {
 	case "variants", "variants-stdin":
 		fasta("msa")
 		out = append(out, corruption{"anno_suffix_unknown", "", "", ""})
+	case "samvariants-annoref":
+		samC()
+		out = append(out, corruption{"two_records", "anno", "", ""}, corruption{"bad_symbol", "anno", "", ""})
 	case "variants-annoref":
 		fasta("msa")
-		out = append(out, corruption{"anno_suffix_unknown", "", "", ""}, corruption{"ref_width", "msa", "", ""}, corruption{"ref_width", "msa", "narrow", ""}, corruption{"two_records", "anno", "", ""})
+		out = append(out, corruption{"anno_suffix_unknown", "", "", ""}, corruption{"ref_width", "msa", "", ""}, corruption{"ref_width", "msa", "narrow", ""}, corruption{"two_records", "anno", "", ""}, corruption{"bad_symbol", "anno", "", ""})
 	case "snps", "snps-agg", "updownlist":
 		fasta("query")
 		out = append(out, corruption{"empty_file", "ref", "", ""}, corruption{"bad_symbol", "ref", "first", ""}, corruption{"ref_width", "ref", "", ""})
@@ -175,8 +178,34 @@ func applyCorruption(c *Case, k corruption, r *Rand) *Case {
 		}
 		return len(strings.Join(recs[0].seq, ""))
 	}
+	if k.Kind == "bad_symbol" && k.File == "anno" {
+		// the reference comes from the annotation (genbank ORIGIN / gff ##FASTA): one of its bases is not a nucleotide symbol
+		lo := strings.Index(text, "\nORIGIN")
+		if c.Opts.AnnoSuffix == "gff" {
+			lo = strings.Index(text, "##FASTA")
+			if lo >= 0 {
+				lo += strings.Index(text[lo:], ">")
+			}
+		}
+		if lo < 0 {
+			return nil
+		}
+		lo += 1 + strings.Index(text[lo+1:], "\n") // past the ORIGIN line / the FASTA header
+		var pos []int
+		for i := lo; i < len(text) && text[i] != '/'; i++ {
+			if strings.IndexByte("acgtACGT", text[i]) >= 0 {
+				pos = append(pos, i)
+			}
+		}
+		if len(pos) == 0 {
+			return nil
+		}
+		i := pos[r.Intn(len(pos))]
+		out.Files["anno"] = text[:i] + r.Pick("x", "j", "z", "e", "X", "J") + text[i+1:]
+		return &out
+	}
 	switch k.Kind {
-	case "short_row", "long_row", "bad_symbol":
+	case "short_row", "long_row", "bad_symbol", "empty_row":
 		recs, nl := parseFasta(text)
 		min := 3
 		if k.File == "ref" {
@@ -199,6 +228,9 @@ func applyCorruption(c *Case, k corruption, r *Rand) *Case {
 				return nil
 			}
 			recs[i].seq[last] = l[:len(l)-1]
+		case "empty_row":
+			// a header with no sequence at all: a row of length 0 among longer ones
+			recs[i].seq = nil
 		case "long_row":
 			last := len(recs[i].seq) - 1
 			recs[i].seq[last] += "A"
